@@ -22,12 +22,12 @@ def ParsesTo (o : Oracle) (T : List Tok) (e : Expr) : Prop := ∃ f0, ∀ f, f0 
 
 /-- **the tree of every derivation is returned**: whatever tree `e` and whatever rendering `T` of it under the
     table (minimal, full or any redundant parenthesisation), the parser accepts `T` and returns `e` -/
-theorem renderings_parse_back (o : Oracle) (sf : F64 → Str) (e : Expr) (T : List Tok) (h : R o sf 0 e T) :
+theorem renderings_parse_back (o : Oracle) (e : Expr) (T : List Tok) (h : R o 0 e T) :
     ParsesTo o T e := parse_render h
 
 /-- **unique derivation**: a token list renders at most one tree -/
-theorem derivation_unique (o : Oracle) (sf : F64 → Str) (e1 e2 : Expr) (T : List Tok)
-    (h1 : R o sf 0 e1 T) (h2 : R o sf 0 e2 T) : e1 = e2 := by
+theorem derivation_unique (o : Oracle) (e1 e2 : Expr) (T : List Tok)
+    (h1 : R o 0 e1 T) (h2 : R o 0 e2 T) : e1 = e2 := by
   obtain ⟨f1, p1⟩ := parse_render h1
   obtain ⟨f2, p2⟩ := parse_render h2
   have a := p1 (f1 + f2) (by omega)
@@ -36,57 +36,57 @@ theorem derivation_unique (o : Oracle) (sf : F64 → Str) (e1 e2 : Expr) (T : Li
   cases b; rfl
 
 /-- **parentheses only group**: wrapping a rendering in parentheses, at any position level, renders the same tree -/
-theorem parentheses_only_group (o : Oracle) (sf : F64 → Str) (k : Nat) (e : Expr) (T : List Tok) (h : R o sf 0 e T) :
-    R o sf k e (lp :: (T ++ [rp])) := R.paren k e T h
+theorem parentheses_only_group (o : Oracle) (k : Nat) (e : Expr) (T : List Tok) (h : R o 0 e T) :
+    R o k e (lp :: (T ++ [rp])) := R.paren k e T h
 
 /-- **every binary level is left-associative**: `a ∘₁ b ∘₂ c` with both operators of level `k` is `(a ∘₁ b) ∘₂ c` -/
-theorem left_associative (o : Oracle) (sf : F64 → Str) (k : Nat) (t1 t2 : Tok) (mk1 mk2 : Expr → Expr → Expr)
+theorem left_associative (o : Oracle) (k : Nat) (t1 t2 : Tok) (mk1 mk2 : Expr → Expr → Expr)
     (a b c : Expr) (Ta Tb Tc : List Tok) (h1 : 1 ≤ k) (h5 : k ≤ 5)
     (o1 : binOpAt k t1 = some mk1) (o2 : binOpAt k t2 = some mk2)
-    (ha : R o sf (k + 1) a Ta) (hb : R o sf (k + 1) b Tb) (hc : R o sf (k + 1) c Tc) :
+    (ha : R o (k + 1) a Ta) (hb : R o (k + 1) b Tb) (hc : R o (k + 1) c Tc) :
     ParsesTo o ((Ta ++ t1 :: Tb) ++ t2 :: Tc) (mk2 (mk1 a b) c) := by
   have hk := (binOpAt_tok o1).2.2.2.2.2.2
   -- a rendering at level k+1 is one at level k
-  have ha' : R o sf k a Ta := by
+  have ha' : R o k a Ta := by
     cases ha with
     | bare _ _ _ hl hbody => exact R.bare k a Ta (by omega) hbody
     | paren _ _ T h => exact R.paren k a T h
-  have inner : R o sf k (mk1 a b) (Ta ++ t1 :: Tb) :=
+  have inner : R o k (mk1 a b) (Ta ++ t1 :: Tb) :=
     R.bare k _ _ (by rw [hk]; exact Nat.le_refl k) (Body.bin k t1 mk1 a b Ta Tb h1 h5 o1 ha' hb)
   exact parse_render (R.bare 0 _ _ (Nat.zero_le _) (Body.bin k t2 mk2 (mk1 a b) c _ Tc h1 h5 o2 inner hc))
 
 /-- **a tighter level binds first, on either side**: with `∘ⱼ` tighter than `∘ₖ`,
     `a ∘ₖ b ∘ⱼ c = a ∘ₖ (b ∘ⱼ c)` and `a ∘ⱼ b ∘ₖ c = (a ∘ⱼ b) ∘ₖ c` -/
-theorem tighter_binds_first (o : Oracle) (sf : F64 → Str) (k j : Nat) (tk tj : Tok) (mkk mkj : Expr → Expr → Expr)
+theorem tighter_binds_first (o : Oracle) (k j : Nat) (tk tj : Tok) (mkk mkj : Expr → Expr → Expr)
     (a b c : Expr) (Ta Tb Tc : List Tok) (h1 : 1 ≤ k) (hkj : k < j) (h5 : j ≤ 5)
     (ok : binOpAt k tk = some mkk) (oj : binOpAt j tj = some mkj)
-    (ha : R o sf (j + 1) a Ta) (hb : R o sf (j + 1) b Tb) (hc : R o sf (j + 1) c Tc) :
+    (ha : R o (j + 1) a Ta) (hb : R o (j + 1) b Tb) (hc : R o (j + 1) c Tc) :
     ParsesTo o (Ta ++ tk :: (Tb ++ tj :: Tc)) (mkk a (mkj b c)) ∧
     ParsesTo o ((Ta ++ tj :: Tb) ++ tk :: Tc) (mkk (mkj a b) c) := by
   have hj := (binOpAt_tok oj).2.2.2.2.2.2
-  have weaken : ∀ {x : Expr} {T : List Tok} (m : Nat), m ≤ j + 1 → R o sf (j + 1) x T → R o sf m x T := by
+  have weaken : ∀ {x : Expr} {T : List Tok} (m : Nat), m ≤ j + 1 → R o (j + 1) x T → R o m x T := by
     intro x T m hm h
     cases h with
     | bare _ _ _ hl hbody => exact R.bare m x T (by omega) hbody
     | paren _ _ T h => exact R.paren m x T h
-  have right : ∀ m, m ≤ j → R o sf m (mkj b c) (Tb ++ tj :: Tc) := fun m hm =>
+  have right : ∀ m, m ≤ j → R o m (mkj b c) (Tb ++ tj :: Tc) := fun m hm =>
     R.bare m _ _ (by rw [hj]; exact hm) (Body.bin j tj mkj b c Tb Tc (by omega) h5 oj (weaken j (by omega) hb) hc)
-  have left : ∀ m, m ≤ j → R o sf m (mkj a b) (Ta ++ tj :: Tb) := fun m hm =>
+  have left : ∀ m, m ≤ j → R o m (mkj a b) (Ta ++ tj :: Tb) := fun m hm =>
     R.bare m _ _ (by rw [hj]; exact hm) (Body.bin j tj mkj a b Ta Tb (by omega) h5 oj (weaken j (by omega) ha) hb)
   exact ⟨parse_render (R.bare 0 _ _ (Nat.zero_le _) (Body.bin k tk mkk a (mkj b c) Ta _ h1 (by omega) ok (weaken k (by omega) ha) (right (k + 1) (by omega)))),
     parse_render (R.bare 0 _ _ (Nat.zero_le _) (Body.bin k tk mkk (mkj a b) c _ Tc h1 (by omega) ok (left k (by omega)) (weaken (k + 1) (by omega) hc)))⟩
 
 /-- **`x in y` means `y contains x`** -/
-theorem in_is_flipped_contains (o : Oracle) (sf : F64 → Str) (x y : Expr) (Tx Ty : List Tok)
-    (hx : R o sf 8 x Tx) (hy : R o sf 8 y Ty) :
+theorem in_is_flipped_contains (o : Oracle) (x y : Expr) (Tx Ty : List Tok)
+    (hx : R o 8 x Tx) (hy : R o 8 y Ty) :
     ParsesTo o (Tx ++ kwIn :: Ty) (.bin .contains y x) ∧ ParsesTo o (Ty ++ kwContains :: Tx) (.bin .contains y x) :=
   ⟨parse_render (R.bare 0 _ _ (Nat.zero_le _) (Body.isIn y x Ty Tx hy hx)),
    parse_render (R.bare 0 _ _ (Nat.zero_le _) (Body.contains y x Ty Tx hy hx))⟩
 
 /-- **contains / in cannot be chained**: after `a contains b` the parser stops in front of a second `contains` or
     `in` — the text is not consumed, so `parseToks` rejects it (`contains_chain_rejected`) -/
-theorem contains_stops (o : Oracle) (sf : F64 → Str) (a b : Expr) (Ta Tb rest : List Tok) (t2 : Tok)
-    (ht : t2 = kwContains ∨ t2 = kwIn) (ha : R o sf 8 a Ta) (hb : R o sf 8 b Tb) :
+theorem contains_stops (o : Oracle) (a b : Expr) (Ta Tb rest : List Tok) (t2 : Tok)
+    (ht : t2 = kwContains ∨ t2 = kwIn) (ha : R o 8 a Ta) (hb : R o 8 b Tb) :
     ∃ f0, ∀ f, f0 ≤ f → pIf o f ((Ta ++ kwContains :: Tb) ++ t2 :: rest) = .ok (.bin .contains a b) (t2 :: rest) := by
   have hP8 : Pk o 8 = PIdx o := by simp [Pk]
   have sa := (R_sound ha)
@@ -136,8 +136,8 @@ private def tb : Tok := .ident ['b']
 private def tc : Tok := .ident ['c']
 
 /-- `a + b * c` is a rendering of `a + (b * c)` -/
-example (o : Oracle) (sf : F64 → Str) :
-    R o sf 0 (.bin .add (.ref ['a']) (.bin .mult (.ref ['b']) (.ref ['c']))) [ta, .p ['+'], tb, .p ['*'], tc] :=
+example (o : Oracle) :
+    R o 0 (.bin .add (.ref ['a']) (.bin .mult (.ref ['b']) (.ref ['c']))) [ta, .p ['+'], tb, .p ['*'], tc] :=
   R.bare 0 _ _ (Nat.zero_le _) (Body.bin 3 (.p ['+']) (Expr.bin .add) _ _ [ta] [tb, .p ['*'], tc] (by omega) (by omega)
     (by simp [binOpAt, addOpOf]) (R.bare 3 _ _ (by simp [lvl]) (Body.ref ['a']))
     (R.bare 4 _ _ (by simp [lvl, binLvl]) (Body.bin 4 (.p ['*']) (Expr.bin .mult) _ _ [tb] [tc] (by omega) (by omega)
